@@ -530,6 +530,7 @@ MACRO_CORPUS = [
     ("open-hideset", "#define foo foo + 1\n#define F(b) b\nint r = F(foo);\n"),
     ("open-stringify-spacing", "#define STR(x) #x\nconst char *s = STR(a+b);\n"),
     ("open-paste-pp-number", "#define CAT(a, b) a ## b\nint x = CAT(1, x);\n"),
+    ("open-funclike-paren", "#define C (x)\n#define H(a) - -\nint r = H C;\n"),
 ]
 
 
@@ -538,10 +539,7 @@ def gen_macro_set(rng):
     defs, kinds, pastes = [], {}, set()
     for nm in rng.sample(names, rng.randint(2, 5)):
         if rng.random() < 0.5:
-            body = " ".join(rng.choice(names + ["1", "2", "+", "*", "(", ")", "x"]) for _ in range(rng.randint(1, 5)))
-            # keep parentheses balanced
-            if body.count("(") != body.count(")"):
-                body = body.replace("(", "").replace(")", "")
+            body = " ".join(rng.choice(names + ["1", "2", "+", "*", "x", "(x)"]) for _ in range(rng.randint(1, 5)))
             defs.append(f"#define {nm} {body}")
             kinds[nm] = 0
         else:
@@ -590,15 +588,29 @@ def _has_cycle(src):
     return False
 
 
+def _paren_from_expansion(src):
+    """an object-like macro whose replacement list starts with `(` and a function-like macro exist: a
+    function-like name followed by that macro is NOT an invocation in C (the next token is not `(`)"""
+    obj_paren = re.search(r"^#define\s+\w+\s+\(", src, flags=re.M)
+    funclike = re.search(r"^#define\s+\w+\(", src, flags=re.M)
+    return bool(obj_paren and funclike)
+
+
 def classify_macro(src, st, pout, got, want):
     """signature of a difference between ppci and gcc -E on a macro set"""
     if st == "diag":
         m = re.search(r'Invalidly glued "(\d\w*)"', pout)
-        return "macro:paste-pp-number" if m else "macro:rejected"
+        if m:
+            return "macro:paste-pp-number"
+        if "arguments, expected" in pout and _paren_from_expansion(src):
+            return "macro:funclike-name-then-paren-from-expansion"
+        return "macro:rejected"
     if st != "ok":
         return "macro:internal-error:" + st.split(":", 1)[1]
     if _norm_strings(got) == _norm_strings(want):
         return "macro:stringify-spacing"
+    if _paren_from_expansion(src) and _norm_strings(got) != _norm_strings(want):
+        return "macro:funclike-name-then-paren-from-expansion"
     if _has_cycle(src):
         return "macro:arg-prescan-loses-hideset"
     return "macro:expansion-differs"
@@ -608,20 +620,39 @@ MACRO_NAMES = ["A", "B", "C", "F", "G", "H", "N", "V", "X", "ADD", "PLUS", "STR"
 
 
 def gcc_pp_many(srcs):
-    """one gcc -E -P run for all macro sets: every set is followed by a marker line and #undef of all names"""
+    """one gcc -E -P run for all macro sets: every set is followed by a marker line and #undef of all names.
+    Returns the output per set; None for a set in which gcc reports an error (wrong argument count, invalid paste)."""
     undef = "".join(f"#undef {n}\n" for n in MACRO_NAMES)
-    text = "".join(f"{src}@@@ {i}\n{undef}" for i, src in enumerate(srcs))
-    ok, out = gcc_pp(text)
-    if not ok:
-        return None
+    chunks, first_line = [], []
+    line = 1
+    for i, src in enumerate(srcs):
+        first_line.append(line)
+        chunk = f"{src}@@@ {i}\n{undef}"
+        chunks.append(chunk)
+        line += chunk.count("\n")
+    d = tempfile.mkdtemp(prefix="c26gcc")
+    try:
+        f = os.path.join(d, "t.c")
+        open(f, "w").write("".join(chunks))
+        p = subprocess.run(["gcc", "-E", "-P", "-w", "-std=c11", f], capture_output=True, text=True)
+    finally:
+        for fn in os.listdir(d):
+            os.unlink(os.path.join(d, fn))
+        os.rmdir(d)
     parts, cur = [], []
-    for line in out.splitlines():
-        if line.startswith("@@@"):
+    for ln in p.stdout.splitlines():
+        if ln.startswith("@@@"):
             parts.append("\n".join(cur))
             cur = []
         else:
-            cur.append(line)
-    return parts if len(parts) == len(srcs) else None
+            cur.append(ln)
+    if len(parts) != len(srcs):
+        return None
+    import bisect
+    for m in re.finditer(r"t\.c:(\d+):\d+: error", p.stderr):
+        k = bisect.bisect_right(first_line, int(m.group(1))) - 1
+        parts[k] = None
+    return parts
 
 
 def macro_search(ctx):
